@@ -205,6 +205,9 @@ func ruleC10Reset(r *Run) {
 					for root.Parent() != nil {
 						root = root.Parent()
 					}
+					if constructionCopy(st) {
+						continue // a copy of the context carries the same router
+					}
 					if FuncName(root) != "rux.New" {
 						okW, where = false, FuncName(f)+" at "+w.Pos(w.InstrPos(st))
 					}
